@@ -39,7 +39,8 @@ Covering(f) == Full \/ (/\ f.order12 = FALSE /\ (f.n1from2 => f.n1from1) /\ (f.c
 Universe(f) ==
   [x \in {"main", "i1", "i2", "n1", "up"} |->
      CASE x = "main" -> [dir |-> <<>>, dotenv |-> NoEnv,
-                         defs |-> {D("services", "smain", 1), D("volumes", "vmain", 1)}
+                         \* sover is written in a second compose file of the main project (merged after the includes of the first are loaded)
+                         defs |-> {D("services", "smain", 1), D("volumes", "vmain", 1), D("services", "sover", 1)}
                                   \cup (IF f.redef = "main-different" THEN {D("networks", "shared", 2)} ELSE IF f.redef = "main-same" THEN {D("networks", "shared", 1)} ELSE {})
                                   \cup (IF f.redef = "main-bare-different" THEN {D("networks", "bare", 4)} ELSE {}),
                          includes |-> LET e1 == <<Inc("i1", IF f.pd1 THEN RootPd ELSE NoPd, IF f.ef1 THEN Custom ELSE NoEf)>>  e2 == <<Inc("i2", NoPd, NoEf)>> IN
@@ -47,7 +48,7 @@ Universe(f) ==
        [] x = "i1" -> [dir |-> <<"inc1">>, dotenv |-> (IF f.dotenv1 THEN DotEnv1 ELSE NoEnv),
                        defs |-> {D("services", "s1", 1), D("services", "s1x", 1),      \* s1x is written as `extends: {service: s1}`: the same definition
                                  D("networks", "shared", 1), D("secrets", "sec1", 1), D("configs", "cfg1", 1)}
-                               \cup (IF f.cenv THEN {D("configs", "cfgenv", 3), D("secrets", "secenv", 3)} ELSE {})   \* variant 3: sourced from an environment variable
+                               \cup (IF f.cenv THEN {D("configs", "cfgenv", 3), D("secrets", "secenv", 3), D("configs", "cfgw", 5), D("secrets", "secw", 5)} ELSE {})   \* variant 3: sourced from an environment variable
                                \cup (IF f.redef \in {"bare-same", "bare-different"} THEN {D("networks", "bare", 4)} ELSE IF f.redef = "main-bare-different" THEN {D("networks", "bare", 2)} ELSE {}),
                        includes |-> (IF f.n1from1 THEN <<Inc("n1", IF f.pdn THEN NestedPd ELSE NoPd, IF f.efn THEN CustomN ELSE NoEf)>> ELSE <<>>) \o (IF f.cycle = "i1-i1" THEN <<Inc("i1", NoPd, NoEf)>> ELSE <<>>)
                                     \o (IF f.csib THEN <<Inc("up", NoPd, NoEf)>> ELSE <<>>)]
